@@ -118,6 +118,7 @@ pub fn harnesses(prop: &str, tier: &str) -> Vec<Harness> {
         "C06" => c06(quick),
         "C07" => c07(quick),
         "C09" => c09(quick),
+        "C10" => c10(quick),
         "C11" => c11(quick),
         _ => Vec::new(),
     }
@@ -325,6 +326,25 @@ fn c07(quick: bool) -> Vec<Harness> {
     v
 }
 
+fn c10(quick: bool) -> Vec<Harness> {
+    use crate::c10::{C10World, read_cases, write_cases};
+    let mut v = Vec::new();
+    for (name, cases) in [("write-side", write_cases(quick)), ("read-side", read_cases(quick))] {
+        let n = cases.len();
+        let cases = std::rc::Rc::new(cases);
+        let (c1, c2) = (cases.clone(), cases.clone());
+        let b = Bounds { depth: 12, dev: 0, d_all: 12, merge: false, shard: (0, 1), cap_s: 0 };
+        v.push(Harness {
+            name: name.to_string(),
+            describe: json!({"engine": "seqx", "world": "C10World", "cases": n, "answers": "every sequence of accepted/delivered byte counts 0..remaining for each request", "sample_case": format!("{:?}", cases[cases.len() / 2])}),
+            bounds: b,
+            run: Box::new(move |b| seqx::explore(&|| C10World::new(c1.clone()), "C10", b)),
+            replay: Box::new(move |choices| seqx::exec(&|| C10World::new(c2.clone()), "C10", choices)),
+        });
+    }
+    v
+}
+
 fn c11(quick: bool) -> Vec<Harness> {
     use crate::thworld::{C11Cfg, RingMode, c11};
     let mut v = Vec::new();
@@ -463,7 +483,7 @@ fn c01(quick: bool) -> Vec<Harness> {
     v
 }
 
-pub const ALL: &[&str] = &["C01", "C02", "C03", "C04", "C05", "C06", "C07", "C09", "C11"];
+pub const ALL: &[&str] = &["C01", "C02", "C03", "C04", "C05", "C06", "C07", "C09", "C10", "C11"];
 
 pub fn assumptions(prop: &str) -> Vec<String> {
     let mut v = vec![
